@@ -33,23 +33,22 @@ LIVE_LIMIT = 3
 
 
 def _probe(c, binp):
+    """Which repairs does the tree carry?  -> 'coded' | 'fixed' (continuity check of stream reads) | 'fixed2' (plus stale
+    buffered publications dropped in the live transition)."""
     r = c.harness(binp, 'probe', {}, timeout=120)
-    contig = bool(r['extra'].get('contig'))
-    c.log('probe: stream reads %s (%s)' % ('with continuity check' if contig else 'as coded', r['extra'].get('reply')))
-    c.notes.append('stream read semantics of the tree: %s' % ('continuity check present' if contig else 'as coded (non-contiguous reads accepted)'))
-    return contig
+    contig, dropstale = bool(r['extra'].get('contig')), bool(r['extra'].get('dropstale'))
+    if dropstale and not contig:
+        raise vf.Inconclusive('probe: the tree drops stale buffered publications but accepts non-contiguous stream reads; no model variant for this combination')
+    sfx = 'fixed2' if dropstale else 'fixed' if contig else 'coded'
+    c.log('probe: tree is %r (%s; %s)' % (sfx, r['extra'].get('reply'), r['extra'].get('reply2')))
+    c.notes.append('semantics of the tree (probed on the real code): %s' % {
+        'coded': 'as coded (non-contiguous stream reads accepted)', 'fixed': 'continuity check of stream reads present',
+        'fixed2': 'continuity check present and stale buffered publications dropped in the live transition'}[sfx])
+    return sfx
 
 
-def _run(c, quick_cfgs, thorough_cfgs, sim, props, nq, nt):
-    quick = c.tier == 'quick'
-    binp = c.go_build('mapsub')
-    sfx = 'fixed' if _probe(c, binp) else 'coded'
-    for cfg in (quick_cfgs if quick else thorough_cfgs):
-        cfg = cfg.replace('@', sfx)
-        r = c.tlc_exhaustive('MapSub', 'MapSub', cfg, workers=8, timeout=3000)
-        c.log('TLC exhaustive %s: %d distinct / %d generated, depth %d, %.0fs' % (cfg, r['distinct'], r['states'], r['depth'], r['wall_s']))
-    cfg = sim.replace('@', sfx)
-    s = c.tlc('MapSub', 'MapSubSim', cfg, simulate=nq if quick else nt, depth=40, timeout=1800)
+def _replay(c, binp, cfg, n, props, totals):
+    s = c.tlc('MapSub', 'MapSubSim', cfg, simulate=n, depth=45, timeout=1800)
     if not s['ok']:
         raise vf.Inconclusive('simulation found a model-level counterexample or failed: %s\n%s' % (s['error'], s['out'][-3000:]))
     behs = c.behaviours(s)
@@ -60,12 +59,32 @@ def _run(c, quick_cfgs, thorough_cfgs, sim, props, nq, nt):
             c.violation(v.get('sig', ''), v.get('what', ''), v.get('replay'))
     for d in res.get('drifts') or []:
         c.drifts.append(d)
+    for k in ('completed', 'executed', 'nontrivial'):
+        totals[k] = totals.get(k, 0) + res[k]
+    c.cov['samples'] += (res.get('samples') or [])[:1]
+
+
+def _run(c, quick_cfgs, thorough_cfgs, sim, props, nq, nt, lag2=False):
+    quick = c.tier == 'quick'
+    binp = c.go_build('mapsub')
+    sfx = _probe(c, binp)
+    cfgs = list(quick_cfgs if quick else thorough_cfgs)
+    if lag2 and sfx == 'fixed2' and not quick:
+        cfgs.append('lag2_fixed.cfg')        # both repairs present: a PUB/SUB lag of two deliveries must converge as well
+    for cfg in cfgs:
+        cfg = cfg.replace('@', sfx)
+        r = c.tlc_exhaustive('MapSub', 'MapSub', cfg, workers=8, timeout=3000)
+        c.log('TLC exhaustive %s: %d distinct / %d generated, depth %d, %.0fs' % (cfg, r['distinct'], r['states'], r['depth'], r['wall_s']))
+    totals = {}
+    _replay(c, binp, sim.replace('@', sfx), nq if quick else nt, props, totals)
+    if lag2 and sfx == 'fixed2' and not quick:
+        _replay(c, binp, 'sim_lag2_fixed2.cfg', 1500, props, totals)
+    res = totals
     if res['completed'] == 0:
         raise vf.Inconclusive('dead driver: no behaviour completed')
     c.cov['traces_validated_against_impl'] = res['completed']
     c.cov['evaluations'] = res['executed']
     c.cov['distinct_nontrivial'] = res['nontrivial']
-    c.cov['samples'] += (res.get('samples') or [])[:1]
     c.cov['rule'] = ('behaviours of MapSub.tla generated by TLC -simulate (mode, kind of subscribe, filter, key tags, page size, stream size chosen in Init), each '
                      'replayed on a real node + client with the subscriber parked after MapBroker.ReadState / after the stream position read / inside '
                      'MapBroker.Subscribe / after MapBroker.ReadStream and deliveries injected at Node.HandlePublication; non-trivial = completed behaviour '
@@ -82,7 +101,7 @@ def _run(c, quick_cfgs, thorough_cfgs, sim, props, nq, nt):
 
 def c22(c):
     _run(c, ['quick_eph.cfg', 'quick_stream_@.cfg'], ['thorough_eph.cfg', 'thorough_rec_@.cfg', 'thorough_per_@.cfg'],
-         'sim_@.cfg', {'C22'}, 1000, 8000)
+         'sim_@.cfg', {'C22'}, 1000, 8000, lag2=True)
 
 
 def c16_map(c):
